@@ -10,6 +10,7 @@ import functools
 import random
 import itertools
 
+from hypothesis import assume
 from hypothesis import strategies as st
 
 from vf import core
@@ -352,6 +353,41 @@ def _is_intercept_literal(n):
     return n[0] == "lit" and n[1] in ("int", "float", "bool") and n[2] in (0, 1)
 
 
+def _has_intercept_literal(n):
+    """An intercept literal anywhere in the term expression (call arguments are not part of it)."""
+    if _is_intercept_literal(n):
+        return True
+    if n[0] == "bin":
+        return _has_intercept_literal(n[2]) or _has_intercept_literal(n[3])
+    if n[0] == "un":
+        return _has_intercept_literal(n[2])
+    return False
+
+
+def expansion_size(n):
+    """Upper estimate of the number of terms a sentence expands to.  Sentences beyond a few thousand terms are not
+    generated: expanding them takes the library minutes (quadratic de-duplication), and a time limit is not a verdict."""
+    k = n[0]
+    if k == "un":
+        return expansion_size(n[2])
+    if k != "bin":
+        return 1
+    a, b = expansion_size(n[2]), expansion_size(n[3])
+    op = n[1]
+    if op == "*":
+        return a + b + a * b
+    if op in (":", "|"):
+        return a * b
+    if op == "**":
+        e = n[3][2] if n[3][0] == "lit" and isinstance(n[3][2], int) else 2
+        total, c = 0, 1
+        for i in range(1, min(max(e, 1), 6) + 1):
+            c = c * (a - i + 1) // i if a - i + 1 > 0 else 0
+            total += c
+        return max(total, a)
+    return a + b
+
+
 def needs_paren(child, parent_prec, right):
     p = _prec(child)
     return p < parent_prec or (p == parent_prec and right and child[0] == "bin")
@@ -378,7 +414,7 @@ def render(a, draw, noise):
         items.append(n_[3])
         n_ = n_[2]
     items.append(n_)
-    if any(_is_intercept_literal(it) for it in items):
+    if any(_has_intercept_literal(it) for it in items):
         # 0 / 1 / -1 act on the chain they are written in, in order: parentheses around a part of that chain
         # are not redundant (they change which chain the literal belongs to)
         nowrap.update(spine)
@@ -460,6 +496,7 @@ def rhs_strategy(leaves):
 @st.composite
 def sentence_case(draw, leaves):
     rhs = draw(rhs_strategy(leaves))
+    assume(expansion_size(rhs) <= 1500)
     shape = draw(st.sampled_from(["y ~ rhs", "y ~ rhs", "rhs", "call ~ rhs", "level ~ rhs"]))
     if shape == "rhs":
         tree = rhs
